@@ -19,6 +19,7 @@ token of the delivered bundle with the byte-identical serialisation, 0 = no such
   race <mode> <pre> <new> <f1> <f2> <note>  deliver-during-fetch with forced order of the mailbox accesses
   stress <who> all <delivered> <fetched>    16-goroutine stress, per persistent recipient
   stress transient sub - <n>                n wrong/duplicate bundles seen by transient clients
+  muxu <n> <leave> <counts>                 a child of the MuxAgent unregisters while a delivery is in progress
   content <path> <senthex> <recvhex>        bytes handed over vs. bytes delivered
   core <node> <peers> <op>=<obs> ...         (pkg/routing: a real Core with agents and mock CLAs)
      op as above (P M R r u) with obs <recv>|<sent>|<eps>, and
@@ -450,6 +451,23 @@ def handle (line : String) : String :=
       else "specfail stress-foreign"
     | _, _ => "skip parse"
   | ["stress", "transient", "sub", _, n] => s!"specfail stress-transient-wrong n={n}"
+  | ["muxu", _n, _leave, "hang"] => "specfail mux-delivery-hangs-while-a-child-unregisters"
+  | ["muxu", _n, _leave, "panic"] => "specfail panic-while-a-child-unregisters"
+  | ["muxu", n, leave, counts] =>
+    -- a child unregisters while the delivery of a bundle to the children is in progress: every other
+    -- registered child is handed the bundle exactly once, the leaving one at most once
+    match n.toNat?, leave.toNat?, (counts.splitOn ",").mapM (·.toNat?) with
+    | some n, some leave, some cs =>
+      if cs.length != n then "skip parse"
+      else
+        let bad := (List.range n).filterMap fun i =>
+          let c := cs.getD i 0
+          if i == leave then (if c ≤ 1 then none else some "duplicate")
+          else if c == 1 then none else if c == 0 then some "missed" else some "duplicate"
+        match bad.head? with
+        | none => "ok"
+        | some k => s!"specfail mux-{k}-while-a-child-unregisters counts={counts} leaving={leave}"
+    | _, _, _ => "skip parse"
   | ["content", path, sent, recv] =>
     match parseHex sent, parseHex recv with
     | some s, some r => if s == r then "ok" else s!"specfail content-differs-{path}"
